@@ -95,6 +95,15 @@ FSFX = dict(float="f", double="", ldouble="L")
 ISFX = dict(bool="", char="", uchar="", short="", ushort="", int="", uint="U", long="L", ulong="UL")
 
 
+def special_literal(t, sign, frac):
+    """infinities and NaN have no literal; 1.0/0.0 and 0.0/0.0 are arithmetic constant expressions with these
+    values under Annex F (the sign and payload of the NaN are not prescribed and not compared)"""
+    z = "0.0" + FSFX[t]
+    if frac:
+        return "(%s/%s)" % (z, z)
+    return "(%s1.0%s/%s)" % ("-" if sign else "", FSFX[t], z)
+
+
 def operand_literal(t, b):
     """a constant expression of type t whose value is the operand with object bytes b (None if there is none:
     NaN and infinities have no literal).  For int, unsigned, long and unsigned long it is a *bare* integer constant
@@ -106,17 +115,17 @@ def operand_literal(t, b):
         if t == "float":
             sign, e, fr, p, bias = v >> 31, (v >> 23) & 0xff, v & 0x7fffff, 24, 127
             if e == 0xff:
-                return None
+                return special_literal(t, sign, fr)
             m, ex = (fr, 1 - bias - (p - 1)) if e == 0 else (fr | 1 << 23, e - bias - (p - 1))
         elif t == "double":
             sign, e, fr, p, bias = v >> 63, (v >> 52) & 0x7ff, v & ((1 << 52) - 1), 53, 1023
             if e == 0x7ff:
-                return None
+                return special_literal(t, sign, fr)
             m, ex = (fr, 1 - bias - (p - 1)) if e == 0 else (fr | 1 << 52, e - bias - (p - 1))
         else:
             sign, e, m, p, bias = v >> 79, (v >> 64) & 0x7fff, v & ((1 << 64) - 1), 64, 16383
             if e == 0x7fff:
-                return None
+                return special_literal(t, sign, m & ((1 << 63) - 1))
             ex = (1 if e == 0 else e) - bias - (p - 1)
         lit = "0.0" + FSFX[t] if m == 0 else "0x%xp%d%s" % (m, ex, FSFX[t])
         return "(-%s)" % lit if sign else lit
@@ -145,6 +154,9 @@ def vsel(c):
     """variant selector: a stable hash of the case coordinates (not the running case number, which depends on
     the subsample), so that the quick tier replays a case in the same embedding as the thorough tier"""
     return zlib.crc32(case_key(c).encode())
+
+
+AGG = ("agg-arr", "agg-nest", "agg-mem", "agg-desg", "agg-cl")
 
 
 def modes(c):
@@ -177,6 +189,10 @@ def modes(c):
             out["literal"] = (xl, yl)
     if f in ("dec", "hex"):
         out = {"local": (None, None), "static": (None, None)}
+    if "static" in out:
+        # the same constant expression as an element initializer of an object with automatic storage duration
+        for m in AGG:
+            out[m] = out["static"]
     return out
 
 
@@ -199,16 +215,33 @@ def context(c):
     return "memory", None, None
 
 
-def expand(rows, all_modes):
-    if not all_modes:
-        return rows
+def expand(rows, quick):
+    """every embedding of every vector; in the quick tier a vector without a special value (-0, NaN, infinity,
+    subnormal among its operands or its result: FloatGen's `sp`) gets one of the five aggregate-initializer
+    embeddings, selected by its hash - special vectors get all of them in both tiers"""
     out = []
     for c in rows:
         for m in sorted(modes(c)):
+            if quick and m in AGG and not c.get("sp") and AGG[vsel(c) % len(AGG)] != m:
+                continue
             d = dict(c)
             d["_mode"] = m
             out.append(d)
     return out
+
+
+def aggregate(mode, RT, e):
+    """the constant expression e as an element initializer of an object with automatic storage duration (6.7.9,
+    6.5.2.5); the other elements are non-zero so that a store that is skipped or misplaced shows"""
+    if mode == "agg-arr":
+        return "%s a[3] = {1, %s, 1}; %s r = a[1];" % (RT, e, RT)
+    if mode == "agg-nest":
+        return "%s a[2][2] = {{1, 1}, {%s, 1}}; %s r = a[1][0];" % (RT, e, RT)
+    if mode == "agg-mem":
+        return "struct { int k; %s m[2]; char c; } s = {7, {%s, 1}, 2}; %s r = s.m[0];" % (RT, e, RT)
+    if mode == "agg-desg":
+        return "%s a[4] = {1, [2] = %s, 1}; %s r = a[2];" % (RT, e, RT)
+    return "%s *p = (%s[]){1, %s}; %s r = p[1];" % (RT, RT, e, RT)
 
 
 def render(i, c):
@@ -267,6 +300,8 @@ def render(i, c):
         if mode == "static":
             out.append("static %s G%d = %s;" % (RT, i, e))
             body.append("%s r = G%d;" % (RT, i))
+        elif mode in AGG:
+            body.append(aggregate(mode, RT, e))
         else:
             body.append("%s r = %s;" % (RT, e))
         if f == "conv" and rt not in FLT:
@@ -331,6 +366,8 @@ def render(i, c):
         if mode == "static":
             out.append("static %s G%d = %s;" % (RT, i, e))
             body.append("%s r = G%d;" % (RT, i))
+        elif mode in AGG:
+            body.append(aggregate(mode, RT, e))
         else:
             body.append("%s r = %s;" % (RT, e))
     elif f == "vararg":
@@ -468,6 +505,8 @@ def fval_class(t, b):
 def sig_of(c, exp, got):
     s = sig_of0(c, exp, got)
     m = context(c)[0]
+    if m in AGG:
+        return "auto-init:" + s
     return "literal:" + s if (m == "literal" or m.startswith("lit-")) else s
 
 
@@ -617,7 +656,7 @@ def run(ctx):
             c02_mc.judge(ctx, j, res)
     rows.sort(key=case_key)                       # worker interleaving must not influence case numbers
     nvec = len(rows)
-    rows = expand(rows, True)      # every embedding in both tiers: the replay is cheap, the generation is what costs
+    rows = expand(rows, q)
     if nvec < 2000:
         raise Infra("generator wrote only %d vectors" % nvec)
     if os.environ.get("VERIF_C02_ORACLE") == "gcc":
